@@ -233,6 +233,25 @@ def run(case, ctx):
                     break
             if viols:
                 break
+    # object-level variant: operands transformed by the library's own GeometricImage.times_group_element (what a user does);
+    # the root must still be the reference action of the original root, flags included
+    if not viols:
+        base_leaves = mk(leaf_data)
+        for gi in rng.choice(len(G), size=min(3, len(G)), replace=False):
+            g = G[int(gi)]
+            try:
+                tr = []
+                r1 = evaluate(tree, [lf.times_group_element(g) for lf in base_leaves], tr) if tree[0] != "leaf" else base_leaves[tree[1]].times_group_element(g)
+                evals += 1
+            except Exception as e:
+                viols.append(viol(f"algebra-exception-{type(e).__name__}", f"{type(e).__name__}: {str(e)[:200]} on library-transformed leaves for {ts}"))
+                break
+            want = ract.act(D, np.asarray(root.data), root.k, root.parity, g)
+            got = np.asarray(r1.data)
+            scale = max(1.0, float(np.max(np.abs(want))) if want.size else 1.0)
+            if got.shape != want.shape or float(np.max(np.abs(got - want))) > 1e-4 * scale or tuple(r1.is_torus) != rgroup.transport(g, tuple(root.is_torus)):
+                viols.append(viol("object-level-expression-not-covariant", f"E(g.L) != g.E(L) with operands transformed by GeometricImage.times_group_element (flags {root.is_torus} -> {r1.is_torus}) for g={g.tolist()}; tree {ts}", g=g.tolist()))
+                break
     # extra laws on fresh operands
     if not viols:
         k = int(rng.integers(2, (4 if D == 2 else 3) + 1))
